@@ -40,7 +40,9 @@ Is(e) == l <= Len(Rec) /\ E.e = e /\ l' = l + 1
 
 Report(v) == IF v = {} THEN TRUE
              ELSE PrintT("VIOL " \o ToJson([props |-> v, b |-> b, l |-> l, e |-> E.e]))
-Judge(v) == Report(v) /\ bad' = bad \cup v
+(* during an export/import transfer every loss or disagreement in the target is also a C20 matter *)
+WithXfer(v) == IF src # <<>> /\ v \cap {"C01", "C05", "C07", "C08"} # {} THEN v \cup {"C20"} ELSE v
+Judge(v) == Report(WithXfer(v)) /\ bad' = bad \cup WithXfer(v)
 
 (* C13: the HTTP rendering of the result (status 0: the operation went through the Store API) *)
 Is4xx(n) == n >= 400 /\ n <= 499
